@@ -45,19 +45,23 @@ def check_point(drv, p, r, fails, expect_cell=None):
         fails.append(Failure(f'{tag} raises {type(e).__name__}: {e}', {'p': list(p), 'r': r})); return
     if ref_decode(c) is None or ref_res(c) != r:
         fails.append(Failure(f'{tag} = {c}: not a valid id of resolution {r}', {'p': list(p), 'r': r})); return
+    exact = r <= 1   # the edges of resolution-0/1 cells are great-circle arcs (faces and face triangles of the dodecahedron; measured: every vertex of a
+                     # 64-segment ring lies within 1e-15 of the great circle through the corners), i.e. straight lines in the gnomonic chart of the oracle
     try:
-        ring = a5.cell_to_boundary(c, {'segments': segs_for(r), 'closed_ring': False})
+        ring = a5.cell_to_boundary(c, {'segments': 1 if exact else segs_for(r), 'closed_ring': False})
     except Exception as e:  # noqa
         fails.append(Failure(f'cell_to_boundary({c}) raises {type(e).__name__}', {'p': list(p), 'r': r})); return
     w, d = G.contains(p, ring)
     size = math.sqrt(4 * math.pi / a5.get_num_cells(r))
-    tol = 1e-6 if r > 3 else 2e-4      # curved edges of the coarsest cells are resolved to ~1e-4 widths by 32..64 segments
+    # curved edges of the coarse cells are resolved to ~1e-4 widths by 32..64 segments; great-circle edges are judged at 1e-11 rad (float noise of the
+    # library's own decision and of the published corners is ~1e-15)
+    tol = 1e-11 if exact else 1e-6 if r > 3 else 2e-4
     if w is None or (w != 1 and d / size > tol):
         fails.append(Failure(f'{tag} = {hex(c)} but the point is {("%.3g" % (d / size)) if d is not None else "far"} cell widths outside that cell\'s boundary', {'p': list(p), 'r': r})); return
     # 360-degree periodicity
     c2 = a5.lonlat_to_cell((p[0] + 360.0, p[1]), r)
     if c2 != c:
-        ring2 = a5.cell_to_boundary(c2, {'segments': segs_for(r), 'closed_ring': False})
+        ring2 = a5.cell_to_boundary(c2, {'segments': 1 if exact else segs_for(r), 'closed_ring': False})
         w2, d2 = G.contains(p, ring2)
         if w2 is None or (w2 != 1 and d2 / size > tol):
             fails.append(Failure(f'lonlat_to_cell is not 360-degree periodic at {p}, resolution {r}: {hex(c)} vs {hex(c2)}', {'p': list(p), 'r': r}))
